@@ -36,7 +36,12 @@ type walkCase struct {
 
 var walkEpoch = time.Date(2020, 12, 27, 0, 0, 0, 0, time.UTC) // day 1 = 2020/12/28: the windows straddle the end of a leap year
 
-func dayStr(d int, layout string) string { return walkEpoch.AddDate(0, 0, d).Format(layout) }
+// in the DST phase day 35 (= --today of the positions family) is 2021-03-28: New York changed its clocks on
+// 03-14 (between last30 and today), Sofia changes them on that very day
+var dstEpoch = time.Date(2021, 2, 21, 0, 0, 0, 0, time.UTC)
+var curEpoch = walkEpoch
+
+func dayStr(d int, layout string) string { return curEpoch.AddDate(0, 0, d).Format(layout) }
 
 func (b boundSpec) str(layout string) string {
 	if b.K == "date" {
@@ -180,6 +185,45 @@ func walkReplay(e *env) error {
 				}(w)
 			}
 			wg.Wait()
+		}
+	}
+	// ---- zones with daylight saving time: the selection must not depend on the zone at all (period kind) ----
+	if e.argInt("dst", 0) == 1 {
+		curEpoch = dstEpoch
+		defer func() { curEpoch = walkEpoch }()
+		for _, zn := range []string{"America/New_York", "Europe/Sofia", "Australia/Lord_Howe"} {
+			loc, err := time.LoadLocation(zn)
+			if err != nil {
+				e.sum.Extra["dst_zone_unavailable"] = zn
+				continue
+			}
+			time.Local = loc
+			var idxs []int
+			for i, c := range all {
+				kw := func(b boundSpec) bool { return b.K != "none" && b.K != "date" }
+				if c.Kind == "period" && (kw(c.BG) || kw(c.EG) || kw(c.BS) || kw(c.ES)) && (i+int(e.seed))%(stride*4) == 0 {
+					idxs = append(idxs, i)
+				}
+			}
+			next := make(chan int, len(idxs))
+			for _, i := range idxs {
+				next <- i
+			}
+			close(next)
+			var wg sync.WaitGroup
+			for w := 0; w < 12; w++ {
+				wg.Add(1)
+				go func(w int) {
+					defer wg.Done()
+					rng := rand.New(rand.NewSource(e.seed*31 + int64(w)))
+					for i := range next {
+						c := all[i]
+						walkOne(e, &c, "2006/01/02", rng, false, "")
+					}
+				}(w)
+			}
+			wg.Wait()
+			e.sum.Extra["dst_cases_"+zn] = len(idxs)
 		}
 	}
 	e.sum.Cases = len(all)
